@@ -301,6 +301,7 @@ structure ResPlan where
   conv : ResConv
   setCapsule : Bool          -- `shadow->addr = ...; shadow->idtor = ...;` in post_call
   structBack : Bool          -- `C_type *c_var = static_cast<...>(cxx_addr cxx_var)` in post_call
+  clearSelf : Bool           -- `{C_this}->addr = nullptr;` in the call clause (destructor)
   ret : RetShape
   protoTail : List Proto
   deriving DecidableEq, Repr
@@ -415,13 +416,22 @@ def runArgs (h : Heap) : List Mode → List ArgPlan → List Val → List Seen
     | none => runArgs h ms ps cs
   | _, _, _ => []
 
+/-- effect of the destructor wrapper on the caller's handle: `delete SH_this; self->addr = nullptr;`
+    (the `idtor` field is not touched) -/
+def clearHandle (h : Heap) (first : Val) : Option (Nat × Val) :=
+  match first with
+  | .ptr (.heap s) => (match h s with | .capsule _ i => some (s, .capsule none i) | _ => none)
+  | _ => none
+
 /-- C arguments: the `this` capsule first when the wrapper has one, then one value per parameter,
     then the trailing shadow parameter (passed separately as `tail`). -/
 def runWrapper (h : Heap) (w : Wrapper) (modes : List Mode) (cargs : List Val)
     (resIsPtr : Bool) (r : CxxRet) (tail : Option Nat) (fresh idtor : Nat) : CalleeView × CResult :=
   match w.this, cargs with
   | some _, first :: rest =>
-    (⟨some (runThis h first), runArgs h modes w.args rest⟩, runResult h w.res resIsPtr r tail fresh idtor)
+    let res := runResult h w.res resIsPtr r tail fresh idtor
+    let res := if w.res.call = .dtorDelete && w.res.clearSelf then { res with capsule := clearHandle h first } else res
+    (⟨some (runThis h first), runArgs h modes w.args rest⟩, res)
   | some _, [] => (⟨some .undef, []⟩, runResult h w.res resIsPtr r tail fresh idtor)
   | none, _ => (⟨none, runArgs h modes w.args cargs⟩, runResult h w.res resIsPtr r tail fresh idtor)
 
@@ -513,6 +523,7 @@ structure ArgDesc where
   valueAttr : Bool           -- `attrs["value"]`
   conv : Nat                 -- typemap c_to_cxx pattern: 0 none, 1 `static_cast<T>({c_var})`, 2 shadow, 9 other
   isResult : Bool            -- `metaattrs["is_result"]`
+  isEnum : Bool := false     -- `arg_typemap.name in self.enum_typemaps`
   deriving DecidableEq, Repr
 
 def ArgDesc.key (v : Vocab) (d : ArgDesc) : List Nat :=
@@ -536,7 +547,9 @@ def callExpr (localKind : Nat) (isPtr isRef : Bool) (v : Var) : CallExpr :=
 def assembleArg (d : ArgDesc) (e : Entry) : ArgPlan :=
   let indirect := d.isPtr || d.isRef
   let convPre : List Rhs :=
-    if e.cxxLocal ≠ 0 then [] else if d.conv = 0 then [] else [convRhs d.conv]
+    if e.cxxLocal ≠ 0 then [] else if d.conv = 0 then []
+    else if indirect && d.isEnum then [.structCast false]   -- pointer to the enum's int form converted as a pointer
+    else [convRhs d.conv]
   let hasLocal : Bool := e.cxxLocal ≠ 0 || d.conv ≠ 0
   let v : Var := if hasLocal then .cxx else .c
   let bufs := if e.bufArgs.isEmpty then [1] else e.bufArgs
@@ -606,6 +619,7 @@ def assembleRes (f : FuncDesc) (e : Entry) (resultAsArg : Bool) : ResPlan :=
     conv := conv
     setCapsule := hasOp 5 e.post && hasOp 6 e.post
     structBack := hasOp 14 e.post
+    clearSelf := e.call.any (fun l => l = (12, [5, 13]))
     ret := ret
     protoTail := if f.isFunction then e.bufExtra.map (decodeProto false e) else [] }
 
